@@ -102,15 +102,15 @@ macro_rules! ans_io_harnesses {
                 assert!(!c.is_empty(), "C04/C18: a coder loaded from raw binary data is never empty");
                 assert!(c.num_valid_bits() == data.n * WB as usize, "C04/C18: num_valid_bits must equal the size of the loaded data");
                 let (b0, s0) = c.clone().into_raw_parts();
-                assert!(b0.n == 0 || s0 >= (1 as S) << (SB - WB), "C04: from_binary violates the state invariant");
+                assert!(b0.n == 0 || s0 >= (1 as S) << (SB - WB), "C01/C04: from_binary violates the state invariant (head under-filled although words remain)");
                 {
                     let g = match c.get_binary() { Ok(g) => g, Err(_) => { assert!(false, "C04/C08: get_binary failed on data loaded with from_binary"); return; } };
                     assert!(g.n == data.n, "C08: get_binary view has the wrong length");
                     let mut i = 0; while i < data.n { assert!(g.buf[i] == data.buf[i], "C08: get_binary view differs from the loaded data"); i += 1; }
                 }
                 let (b1, s1) = c.clone().into_raw_parts();
-                assert!(s1 == s0 && b1.n == b0.n, "C08: dropping the get_binary view did not restore the coder");
-                let mut i = 0; while i < b0.n { assert!(b1.buf[i] == b0.buf[i], "C08: dropping the get_binary view changed the bulk"); i += 1; }
+                assert!(s1 == s0 && b1.n == b0.n, "C01/C08: dropping the get_binary view did not restore the coder");
+                let mut i = 0; while i < b0.n { assert!(b1.buf[i] == b0.buf[i], "C01/C08: dropping the get_binary view changed the bulk"); i += 1; }
                 match c.into_binary() {
                     Ok(w) => { assert!(w.n == data.n, "C04: into_binary(from_binary(d)) has a different length"); let mut i = 0; while i < data.n { assert!(w.buf[i] == data.buf[i], "C04: into_binary(from_binary(d)) != d"); i += 1; } }
                     Err(_) => assert!(false, "C04: into_binary refused data loaded with from_binary"),
